@@ -754,11 +754,13 @@ macro_rules! impl_signed_ints(
         $(
             impl ViewBounds for $int_type {
                 fn view_bounds(self, size: usize) -> Option<(usize, usize)> {
-                    let size = size as $int_type;
-                    if self < -size || self >= size {
+                    // resolve in i64: the axis length may not fit the index type
+                    let index = self as i64;
+                    let size = size as i64;
+                    if index < -size || index >= size {
                         None
                     } else {
-                        let start = clamp(self + size, 0, 2 * size - 1) % size;
+                        let start = clamp(index + size, 0, 2 * size - 1) % size;
                         Some((start as usize, (start + 1) as usize))
                     }
                 }
